@@ -277,6 +277,8 @@ pub fn scn_snapshots(o: &Opts, tr: &mut Tr, prop: &str) {
             let (mut ip, mut op) = (0usize, 0usize);
             let mut rs = StdRng::seed_from_u64(sched_seed);
             let mut points = 0;
+            let mut forks: Vec<(Value, usize)> = Vec::new();
+            let mut final_status = String::new();
             for _ in 0..400 {
                 // fork here (before the next call)
                 if points < (if o.thorough { 40 } else { 12 }) && rs.gen_range(0..3) != 0 {
@@ -285,6 +287,7 @@ pub fn scn_snapshots(o: &Opts, tr: &mut Tr, prop: &str) {
                     let mut o0 = out.clone();
                     let mut d0 = d.clone();
                     let r0 = cont(&mut d0, &mut o0, ip, op, &mut StdRng::seed_from_u64(fork_seed));
+                    forks.push((r0.clone(), op));
                     // clone of a clone
                     let mut o1 = out.clone();
                     let mut d1 = d.clone().clone();
@@ -310,8 +313,60 @@ pub fn scn_snapshots(o: &Opts, tr: &mut Tr, prop: &str) {
                 let (st, used, w) = decompress(&mut d, &z[ip..ip + ch], &mut out, op, flags);
                 ip += used.min(ch);
                 op += w;
+                final_status = st_name(st);
                 if st != TINFLStatus::NeedsMoreInput && !(st == TINFLStatus::HasMoreOutput && op < out.len()) {
                     break;
+                }
+            }
+            // every fork must have finished exactly like the decoder that was never copied
+            if ip == z.len() || final_status != "NeedsMoreInput" {
+                for (r0, fop) in forks.iter() {
+                    let want = json!({"status": final_status, "consumed_total": ip, "out": bytes(&out[*fop..op.min(out.len())])});
+                    mism |= emit_pair(tr, "copy_finishes_like_the_uninterrupted_decoder", r0, &want);
+                }
+            }
+            // InflateState is Clone too: fork the streaming wrapper between calls
+            {
+                let fmt = if s.zlib { DataFormat::Zlib } else { DataFormat::Raw };
+                let mut st = InflateState::new_boxed(fmt);
+                let mut rs = StdRng::seed_from_u64(sched_seed ^ 0x77);
+                let mut ip = 0usize;
+                let cont_inf = |st: &mut InflateState, mut ip: usize, rs: &mut StdRng| -> Value {
+                    let mut got = Vec::new();
+                    let mut last = String::new();
+                    for _ in 0..4000 {
+                        let rem = z.len() - ip;
+                        let ch = match rs.gen_range(0..3) { 0 => 1.min(rem), 1 => rs.gen_range(0..50).min(rem), _ => rem };
+                        let ol = [1usize, 17, 300, 50_000][rs.gen_range(0..4)];
+                        let mut o = vec![0u8; ol];
+                        let rr = inflate(st, &z[ip..ip + ch], &mut o, MZFlush::None);
+                        ip += rr.bytes_consumed.min(ch);
+                        got.extend_from_slice(&o[..rr.bytes_written.min(ol)]);
+                        last = crate::comp::mz_result(&rr.status);
+                        if rr.status != Ok(miniz_oxide::MZStatus::Ok) && !(rr.status == Err(miniz_oxide::MZError::Buf) && ip < z.len()) {
+                            break;
+                        }
+                    }
+                    json!({"status": last, "consumed_total": ip, "out": bytes(&got)})
+                };
+                for step in 0..60 {
+                    if step % 2 == 0 {
+                        let fs: u64 = rs.gen();
+                        let keep = st.clone();
+                        // the original itself runs to the end; a copy taken before must do the same
+                        let ro = cont_inf(&mut st, ip, &mut StdRng::seed_from_u64(fs));
+                        let mut a = keep.clone();
+                        let ra = cont_inf(&mut a, ip, &mut StdRng::seed_from_u64(fs));
+                        mism |= emit_pair(tr, "inflate_state_clone_resumes_identically", &ro, &ra);
+                        st = keep;
+                    }
+                    let rem = z.len() - ip;
+                    if rem == 0 { break; }
+                    let ch = rs.gen_range(0..=rem.min(40));
+                    let mut o = vec![0u8; [1usize, 9, 200][rs.gen_range(0..3)]];
+                    let rr = inflate(&mut st, &z[ip..ip + ch], &mut o, MZFlush::None);
+                    ip += rr.bytes_consumed.min(ch);
+                    if rr.status != Ok(miniz_oxide::MZStatus::Ok) && rr.status != Err(miniz_oxide::MZError::Buf) { break; }
                 }
             }
             // block boundaries
